@@ -102,6 +102,61 @@ Definition of_type (t : ty) (v : value) : Prop :=
   | _, _ => False
   end.
 
+(* ---------- date and time columns (stored, like timestamps, as UTC RFC 3339 text of an instant)
+   "YYYY-MM-DD" is read as midnight UTC of that day; a bare time of day "hh:mm:ss[.fraction]" is (fix c281d43a,
+   util.parseTimeOfDay) that time on January 1 of year 0, UTC - what Go's time.Parse gives for a layout without a
+   date.  The value read back is the RFC 3339 text of that instant. *)
+Definition year0 : Z := -62167219200.       (* 0000-01-01T00:00:00Z in seconds since the epoch *)
+
+Inductive col := Col (t : ty) | ColDate | ColTime.
+Inductive cvalue :=
+| CV (v : value)
+| CVDate (day : Z)                          (* days since 1970-01-01 *)
+| CVTod (sec nano : Z).                     (* seconds since midnight, nanoseconds *)
+
+(* the instant a date / time-of-day value is parsed to (CoerceToColumnType -> StrictParseTimestamp) *)
+Definition instant_of (v : cvalue) : res value :=
+  match v with
+  | CVDate d => Ok (VTs (86400 * d) 0)
+  | CVTod s n => Ok (VTs (year0 + s) n)
+  | CV _ => Rejected
+  end.
+(* how the client reads the RFC 3339 text that comes back *)
+Definition date_of_instant (v : value) : res cvalue :=
+  match v with
+  | VTs s n => if (s mod 86400 =? 0) && (n =? 0) then Ok (CVDate (s / 86400)) else Rejected
+  | _ => Rejected
+  end.
+Definition tod_of_instant (v : value) : res cvalue :=
+  match v with
+  | VTs s n => if (year0 <=? s) && (s <? year0 + 86400) then Ok (CVTod (s - year0) n) else Rejected
+  | _ => Rejected
+  end.
+
+Definition roundtrip_col (c : col) (v : cvalue) : res cvalue :=
+  match c, v with
+  | Col t, CV x => match roundtrip_n true true t x with Ok y => Ok (CV y) | Rejected => Rejected end
+  | ColDate, CVDate _ =>
+      match instant_of v with
+      | Ok i => match roundtrip_n true true TTs i with Ok j => date_of_instant j | Rejected => Rejected end
+      | Rejected => Rejected
+      end
+  | ColTime, CVTod _ _ =>
+      match instant_of v with
+      | Ok i => match roundtrip_n true true TTs i with Ok j => tod_of_instant j | Rejected => Rejected end
+      | Rejected => Rejected
+      end
+  | _, _ => Rejected
+  end.
+
+Definition of_col_type (c : col) (v : cvalue) : Prop :=
+  match c, v with
+  | Col t, CV x => of_type t x
+  | ColDate, CVDate _ => True
+  | ColTime, CVTod s n => 0 <= s < 86400 /\ 0 <= n < 1000000000
+  | _, _ => False
+  end.
+
 (* ---------- one table name over time: the column type used for coercion comes from the schema cache ----------
    getColumnInfo caches the column list per (user, dsn, table, showRowID): the write handlers (InsertRows, UpdateRows) use
    the showRowID=false entry, ReadRows the showRowID=true entry.  TableCreate and DeleteTable purge the schema cache.
